@@ -17,7 +17,7 @@ CHECKS = {
    design_ref="DESIGN.md section 4 C02",
    note="bounded: documents up to 7 (quick) / 8 (thorough) events exhaustively over 2 anchor names, random up to 40/80 "
         "events beyond; untyped target, LastWins; " + TRUST,
-   technique="TLA+ model (LiveEvents.tla) checked by TLC + TLC trace validation of recorded from_str calls against YamlModel!ExpandAll"),
+   technique="TLA+ model (LiveEvents.tla) checked by TLC + TLC trace validation of recorded from_str calls against YamlModel!ExpandAll + action-level trace validation of the instrumented pump (TR_LiveEvents)"),
  "C03": dict(
    category="model_checking",
    text="MapAccess.tla states merge semantics declaratively by precedence (own keys first, then the last `<<` entry / last "
@@ -121,7 +121,7 @@ CHECKS = {
    design_ref="DESIGN.md section 4 C08",
    note="counters: model_checking; peak heap: a measurement bounded by the specification's constant (exploration-level); known finding "
         "C08-nested-anchor-recording is suppressed only for the `nested` family's heap verdict; " + TRUST,
-   technique="TLA+ model (LiveEvents.tla + Bounds.tla) checked by TLC + TLC trace validation of limit outcomes and observer counts"),
+   technique="TLA+ model (LiveEvents.tla + Bounds.tla) checked by TLC + TLC trace validation of limit outcomes and observer counts + action-level trace validation of the instrumented pump (TR_LiveEvents)"),
  "C12": dict(
    category="model_checking",
    text="Quoting.tla models the serializer's decision to write a string plain in a position and, independently, what a YAML "
